@@ -346,6 +346,24 @@ def opNorm (j : Json) : R Json := do
   pure (Json.mkObj [("out", Json.arr (outs.map outJson).toArray), ("again", Json.arr (again.map outJson).toArray),
     ("gate", Json.arr gate.toArray), ("gateIn", Json.arr gateIn.toArray)])
 
+open Edxml.Ont Edxml.Gate in
+def opCompat (j : Json) : R Json := do
+  let ots ← (← fldArr j "ots").mapM objectTypeOf
+  let ots2 ← (← fldArr j "ots2").mapM objectTypeOf
+  let et ← eventTypeOf (← fld j "et")
+  let et2 ← eventTypeOf (← fld j "et2")
+  let evs ← (← fldArr j "events").mapM fun o => do
+    pure (← event (← fld o "event"), ← infoOfJson (← fld o "infoOld"), ← infoOfJson (← fld o "infoNew"))
+  -- object types by name: the comparison of each old definition with its new one
+  let cmpOts := ots.map fun o => match findBy (·.name) o.name ots2 with
+    | some n => cmpJson (cmpObjectType o n)
+    | none => Json.str "missing"
+  let rows := evs.map fun (e, io, inw) =>
+    Json.mkObj [("validOld", gate (gateType ots et) io e), ("validNew", gate (gateType ots2 et2) inw e),
+                ("hashSame", decide (hashInput (hashedOfType et) e = hashInput (hashedOfType et2) e))]
+  pure (Json.mkObj [("cmpEt", cmpJson (cmpEventType et et2)), ("cmpOts", Json.arr cmpOts.toArray),
+                    ("events", Json.arr rows.toArray)])
+
 def dispatch (j : Json) : R Json := do
   match ← fldStr j "op" with
   | "ping" => pure (Json.mkObj [("pong", true)])
@@ -361,6 +379,7 @@ def dispatch (j : Json) : R Json := do
   | "xmed" => opXmed j
   | "gate" => opGate j
   | "norm" => opNorm j
+  | "compat" => opCompat j
   | x => throw s!"unknown op {x}"
 
 partial def loop (inp out : IO.FS.Stream) : IO Unit := do
